@@ -139,6 +139,45 @@ def compare_siblings(rep, fb, r_tests, r_updates, site_side='P'):
     def accepted(side, key):
         k = (side, key[0], key[1]) if key[2] is None else (side, key[0], key[1], key[2])
         return k in ACCEPTED
+    # ---- loop-nesting depth of every update and test (a scratch set cleared once per candidate in one template and once per
+    # phase in the other is a different algorithm although the multisets agree)
+    PD, CD = collections.defaultdict(list), collections.defaultdict(list)
+    depth = 0
+    for line, src, w in plines:
+        st_ = line.strip()
+        if re.match(r'^do\b', st_):
+            depth += 1
+        for m in P_RE.finditer(line):
+            neg, fam, op, args = m.groups()
+            PD[(op, tuple(norm(a) for a in args.split(',')), bool(neg) if op.startswith('HAS') else None)].append(depth)
+        if re.match(r'^od\b', st_):
+            depth -= 1
+    if depth != 0:
+        raise AnalysisBroken('emitted Promela step: do/od do not balance (%+d)' % depth)
+    stack, pending = [], False
+    tok = re.compile(r'\bfor\s*\(|\bwhile\s*\(|\{|\}|' + C_RE.pattern)
+    for m in tok.finditer(cstep):
+        t = m.group(0)
+        if re.match(r'(for|while)\b', t):
+            pending = True
+        elif t == '{':
+            stack.append('L' if pending else 'B')
+            pending = False
+        elif t == '}':
+            if stack:
+                stack.pop()
+        else:
+            neg, fn, args = m.group(1), m.group(2), m.group(3)
+            a = [norm(x) for x in args.split(',')][:-1]
+            CD[(CMAP[fn], tuple(a), bool(neg) if fn.startswith('bit_has') else None)].append(stack.count('L') + (1 if pending else 0))
+    for key in sorted(set(PD) & set(CD), key=str):
+        rule = r_tests if key[0].startswith('HAS') else r_updates
+        if accepted('C', key) or accepted('P', key) or len(PD[key]) != len(CD[key]):
+            continue
+        what = '%s%s(%s)' % ('!' if key[2] else '', key[0], ', '.join(key[1]))
+        rep.check(sorted(PD[key]) == sorted(CD[key]), rule, what + '|loop depth', psite.get(key, 'src/uscxml/transform/ChartToPromela.cpp'),
+                  '%s sits at loop depth %s in the Promela step and %s in the C step function%s' % (what, sorted(PD[key]), sorted(CD[key]),
+                  '' if sorted(PD[key]) == sorted(CD[key]) else ': it is executed once per iteration in one template and once for the whole loop in the other'))
     for key in sorted(set(C) | set(P), key=str):
         rule = r_tests if key[0].startswith('HAS') else r_updates
         what = '%s%s(%s)' % ('!' if key[2] else '', key[0], ', '.join(key[1]))
@@ -158,6 +197,78 @@ def compare_siblings(rep, fb, r_tests, r_updates, site_side='P'):
 
 
 
+MUTATORS = ('append', 'replace', 'erase', 'insert', 'push_back', 'clear', 'assign', 'resize', 'swap', 'pop_back', 'operator+=', 'operator=')
+
+
+def unique_names(rep, fb, rule):
+    """name allocation: a loop `while (set.find(name) != set.end()) name = <next candidate>` followed by set.insert(name) hands out
+    unique names only if the name that is inserted (and returned) is the one that was tested: no further change in between"""
+    from .. import cfg as cfgm
+    n_sites = 0
+    for f in fb.funcs.values():
+        if not f.file.startswith('src/uscxml/transform/') or not f.d.get('cfg'):
+            continue
+        for lp in f.walk():
+            if lp['k'] != 'WhileStmt':
+                continue
+            cond = strip(lp['c'][0] if lp['c'][0] is not None else lp['c'][1])
+            if cond is None or cond['k'] not in ('CXXOperatorCallExpr', 'BinaryOperator') or cond.get('op') != '!=':
+                continue
+            finds = [x for x in sub(cond) if x['k'] == 'CXXMemberCallExpr' and x.get('callee', {}).get('q', '').split('::')[-1] == 'find' and len(x.get('c', [])) > 1]
+            ends = [x for x in sub(cond) if x['k'] == 'CXXMemberCallExpr' and x.get('callee', {}).get('q', '').split('::')[-1] == 'end']
+            if not finds or not ends:
+                continue
+            setm = [x['ref']['name'] for x in sub(finds[0]['c'][0]) if x['k'] == 'MemberExpr' and x['ref'].get('dk') == 'Field']
+            key = strip(finds[0]['c'][1])
+            if not setm or key is None or key['k'] != 'DeclRefExpr' or 'lid' not in key.get('ref', {}):
+                continue
+            lid = key['ref']['lid']
+            # the candidate is re-assigned inside the loop (otherwise this is not an allocation loop)
+            body_assigns = [x for x in sub(lp['c'][-1]) if x['k'] in ('CXXOperatorCallExpr', 'BinaryOperator') and x.get('op') == '=' and
+                            strip(x['c'][1] if x['k'] == 'CXXOperatorCallExpr' else x['c'][0]).get('ref', {}).get('lid') == lid]
+            if not body_assigns:
+                continue
+            inserts = [x for x in f.walk() if x['k'] == 'CXXMemberCallExpr' and x.get('callee', {}).get('q', '').split('::')[-1] == 'insert' and x['loc'][1] > lp['loc'][1] and
+                       any(y['k'] == 'MemberExpr' and y['ref'].get('name') == setm[0] for y in sub(x['c'][0])) and
+                       any(y['k'] == 'DeclRefExpr' and y.get('ref', {}).get('lid') == lid for a_ in x['c'][1:] for y in sub(a_))]
+            if not inserts:
+                continue
+            n_sites += 1
+            g = cfgm.CFG(f)
+            in_loop = {x['id'] for x in sub(lp)}
+            muts = []
+            for x in f.walk():
+                if x['id'] in in_loop or x['id'] not in g.pos:
+                    continue
+                if x['k'] in ('CXXOperatorCallExpr', 'BinaryOperator') and x.get('op') in ('=', '+='):
+                    l = strip(x['c'][1] if x['k'] == 'CXXOperatorCallExpr' else x['c'][0])
+                    if l is not None and l['k'] == 'DeclRefExpr' and l.get('ref', {}).get('lid') == lid:
+                        muts.append(x)
+                elif x['k'] == 'CXXMemberCallExpr' and x.get('callee', {}).get('q', '').split('::')[-1] in MUTATORS and x['c'][0].get('c'):
+                    b = strip(x['c'][0]['c'][0])
+                    if b is not None and b['k'] == 'DeclRefExpr' and b.get('ref', {}).get('lid') == lid:
+                        muts.append(x)
+                elif x['k'] == 'CallExpr':
+                    # the variable handed over as a non-const reference (no const-adding cast, no copy)
+                    for a_ in x.get('c', [])[1:]:
+                        if a_['k'] == 'DeclRefExpr' and a_.get('ref', {}).get('lid') == lid and 'const' not in (a_.get('t') or ''):
+                            muts.append(x)
+            cb = g.pos.get(strip(lp['c'][0] if lp['c'][0] is not None else lp['c'][1])['id'])
+            exit_succ = None
+            for bid, blk in g.blocks.items():
+                if blk.get('termk') == 'WhileStmt' and blk.get('term') == lp['id']:
+                    ss = g.succ_labeled(bid)
+                    ex = [s_ for s_, lab in ss if lab is False]
+                    exit_succ = ex[0] if ex else None
+            if exit_succ is None:
+                raise AnalysisBroken('%s: exit edge of the allocation loop at %s not found' % (f.q, locstr(lp)))
+            after = g.reachable_blocks(exit_succ)
+            late = [m_ for m_ in muts if g.pos[m_['id']][0] in after and g.can_reach(g.pos[m_['id']], [inserts[0]['id']]) is not None]
+            rep.check(not late, rule, '%s|%s' % (f.q.split('::')[-1], setm[0]), locstr(lp), 'the name tested against %s by the allocation loop is %s' % (setm[0],
+                      'inserted unchanged' if not late else 'CHANGED again before it is inserted (%s): the set then holds names in another form than the candidates it is asked about, and two literals can get the same name' % locstr(late[0])))
+    rep.minimum(rule, n_sites, 1, 'unique-name allocation loops in the transformers')
+
+
 def run(rep, tier):
     rep.rule('R06.1', 'macro-family typing of the emitted Promela: STATES_* macros take state-sized bit arrays only, TRANS_* macros transition-sized ones only; a loop variable bounded by USCXML_NUMBER_TRANS subscripts transition-sized arrays and the transition table, one bounded by USCXML_NUMBER_STATES state-sized arrays and the state table')
     rep.rule('R06.2', 'set tests agree with the C sibling: every STATES_HAS_AND / STATES_HAS_ANY test of the Promela step has the operands and the polarity of the corresponding bit_has_and / bit_has_any test of the emitted C step function, and vice versa')
@@ -165,6 +276,7 @@ def run(rep, tier):
     rep.rule('R06.4', 'set updates agree with the C sibling: the multiset of (operation, destination, source) over OR / AND / AND_NOT / COPY / CLEAR is the same in both emitted step functions (accepted differences are listed with reasons)')
     rep.rule('R06.5', 'set-valued completion: the emitted loop that adds the ancestors of a compound\'s deep completion members does not leave at the first member (same clause as C04 R04.9 for the C sibling)')
     rep.rule('R06.6', 'static event-descriptor resolution: the prefix trie registers every event name and a prefix lookup returns every name below the prefix (rules shared with C12 R12.5 / R12.6)')
+    rep.rule('R06.7', 'literal numbering is injective: the loop that makes a macro name unique tests the same string that is then inserted into the name set and handed out (no case folding or other rewrite between the test and the insertion)')
     rep.assume('equality of the spin model\'s executions with the interpreter\'s is not decided; executable content, event/string numbering, nested machines and timers are not analysed')
     rep.assume('the emitted C step function is the reference only in the sense of "sibling": C04 checks it against the engines')
     fb = facts.FactBase(TUS)
@@ -268,3 +380,5 @@ def run(rep, tier):
     # ---- R06.6
     from . import C12
     C12.trie_rules(rep, fb, 'R06.6', 'R06.6')
+    # ---- R06.7
+    unique_names(rep, facts.FactBase(TUS + ['src/uscxml/transform/promela/PromelaCodeAnalyzer.cpp']), 'R06.7')
